@@ -8,6 +8,7 @@ verified with an independent HMAC; (c) I->S: a stress run (signers x rotating ke
 authorization header validated by TLC against spec/trace/KeyPairTrace.tla."""
 import json
 import os
+import shutil
 import random
 
 from vlib import build, canon, rig, tlc as tlcmod, util
@@ -273,6 +274,65 @@ def run(c):
     if nr < 3:
         raise util.ToolError("re-latch scenario: only %d authorization headers reached the host (key keeper did not latch?)" % nr)
     c.extra["relatch_signatures"] = nr
+    # 4d. the host re-keys the latched key under the SAME guid (next incarnation, fresh secret): from then on everything that
+    #     names the guid is signed with the new secret -- in the running process, and after a restart on the same key folder
+    R, S1, S2 = "dddddddd-0000-4000-8000-00000000000d", "7d" * 32, "8e" * 32
+    kdir = os.path.join(util.RUNDIR, "c10_rekey_keys")
+    shutil.rmtree(kdir, ignore_errors=True)
+
+    def kdoc(secret, inc):
+        return dict(c12.key_doc(R, secret), incarnationId=inc)
+    traffic = lambda tag: [{"op": "connect", "conn": "c" + tag, "attr": {"uid": 0, "admin": 1, "dip": "168.63.129.16", "dport": 80}},
+                           {"op": "request", "conn": "c" + tag, "id": tag, "method": "GET", "target": "/machine?comp=goalstate&t=" + tag, "headers": [["Host", "h"]]},
+                           {"op": "close", "conn": "c" + tag}, {"op": "own_call", "kind": "goalstate", "tag": tag + "_own"},
+                           {"op": "own_call", "kind": "imds", "tag": tag + "_imds"}]
+    ksteps = [c12.plan("GET /secure-channel/status", 200, c12.status_doc(None)),
+              c12.plan("POST /secure-channel/key", 200, kdoc(S1, 1)),
+              c12.plan("POST /secure-channel/key/*", 200, ""),
+              {"op": "start_key_keeper", "interval_ms": 40}, {"op": "sleep", "ms": 500},
+              c12.plan("GET /secure-channel/status", 200, c12.status_doc(R)), {"op": "sleep", "ms": 200},
+              {"op": "key_state", "tag": "first"}] + traffic("rk1") + [
+              # the host drops its latch and hands out the same guid again with the next incarnation and a fresh secret
+              # (the agent is in its steady latched state here: no acquisition is in flight)
+              {"op": "mark", "tag": "rekey-begin"},
+              c12.plan("POST /secure-channel/key", 200, kdoc(S2, 2)),
+              c12.plan("GET /secure-channel/status", 200, c12.status_doc(None)), {"op": "sleep", "ms": 500},
+              c12.plan("GET /secure-channel/status", 200, c12.status_doc(R)), {"op": "sleep", "ms": 200},
+              {"op": "mark", "tag": "rekeyed"}, {"op": "key_state", "tag": "rekeyed"}] + traffic("rk2")
+    ev1, d1, _ = rig.run_rig({"steps": ksteps, "drain_ms": 200, "agent_config": {"latchKeyFolder": kdir}}, "c10_rekey", timeout=300)
+    # restart: a new process on the same key folder; the host names the latched guid, the agent finds it in its store
+    rsteps2 = [c12.plan("GET /secure-channel/status", 200, c12.status_doc(R)),
+               c12.plan("POST /secure-channel/key", 500, "no new keys", "text/plain"),
+               {"op": "start_key_keeper", "interval_ms": 40}, {"op": "sleep", "ms": 600},
+               {"op": "key_state", "tag": "restarted"}] + traffic("rk3")
+    ev2, d2, _ = rig.run_rig({"steps": rsteps2, "drain_ms": 200, "agent_config": {"latchKeyFolder": kdir}}, "c10_rekey2", timeout=300)
+    shutil.rmtree(kdir, ignore_errors=True)
+    ks = {e.get("tag"): e for e in ev1 + ev2 if e["e"] == "KeyState"}
+    if not all(ks.get(t, {}).get("guid") == R for t in ("first", "rekeyed", "restarted")):
+        raise util.ToolError("re-key scenario: the key was not latched in every phase: %s" % {k: v.get("guid") for k, v in ks.items()})
+    rows += [{"e": "issue", "guid": R + "@1"}, {"e": "issue", "guid": R + "@2"}]
+    nrk, phase, attests = 0, 1, 0
+    for evs, start_phase in ((ev1, 1), (ev2, 2)):
+        phase = start_phase
+        marks = [i for i, e in enumerate(evs) if e["e"] == "Mark" and e.get("tag") == "rekeyed"]
+        cut = marks[0] if marks else -1
+        idx = {id(e): i for i, e in enumerate(evs)}
+        for rid, g, v, e in sign_events(evs, None, keys={R + "@1": S1, R + "@2": S2}):
+            c.count()
+            if g is None:
+                continue
+            if "key-attestation" in e["target"]:
+                # attestations follow the acquisition they belong to (repeated until the host's status names the key)
+                begun = any(x["e"] == "Mark" and x.get("tag") == "rekey-begin" for x in evs[:idx[id(e)]])
+                want = R + "@%d" % (1 if (start_phase == 1 and not begun) else 2)
+            else:
+                want = R + "@%d" % (2 if (start_phase == 2 or (cut >= 0 and idx[id(e)] > cut)) else 1)
+            nrk += 1
+            rows.append({"e": "sign", "signer": "rekey:" + (e["target"][:40]), "guid": want if g == R else g, "verifies": v or "none",
+                         "id": "rk%d:%s" % (nrk, rid or "keykeeper"), "hist": []})
+    if nrk < 10:
+        raise util.ToolError("re-key scenario: only %d authorization headers reached the hosts" % nrk)
+    c.extra["rekey_same_guid_signatures"] = nrk
     # 4b. the signing helper under concurrent use with two keys
     sg = rig.fn_table([{"kind": "sig_stress", "keys": [K["k1"], K["k2"]], "threads": 6, "iters": 20000 if not thorough else 300000}],
                       "c10_sig", timeout=900)[0]
